@@ -965,11 +965,11 @@ def leaf_strategy(features):
 NAMES = ['n', 'g1', '_x', 'Name', 'a', 'k2']
 
 
-def tree_strategy(features=ALL_FEATURES, max_leaves=6, bounds=None):
+def tree_strategy(features=ALL_FEATURES, max_leaves=6, look_kinds=('fb', 'pb', 'eb', 'nfb', 'npb', 'neb'), leaf=None):
     """Recursive strategy over expression trees (construction, no filtering)."""
     from hypothesis import strategies as st
     features = set(features)
-    leaf = leaf_strategy(features)
+    leaf = leaf if leaf is not None else leaf_strategy(features)
     small = st.integers(0, 4)
 
     def extend(child):
@@ -1007,7 +1007,7 @@ def tree_strategy(features=ALL_FEATURES, max_leaves=6, bounds=None):
                                   st.sampled_from(['class', 'method']), child).map(
                 lambda t: ['anchor', t[0], t[1], t[2]]))
         if 'look' in features:
-            opts.append(st.tuples(st.sampled_from(['fb', 'pb', 'eb', 'nfb', 'npb', 'neb']),
+            opts.append(st.tuples(st.sampled_from(list(look_kinds)),
                                   st.sampled_from(['class', 'method']), child,
                                   st.lists(child, min_size=1, max_size=2)).map(
                 lambda t: ['look', t[0], t[1], t[2], t[3]]))
